@@ -223,6 +223,33 @@ pub fn gen_collide(rng: &mut Rng, kt: Kt, n_ops: usize) -> Seq {
     Seq { kt, params: Params::buckets(*rng.pick(&[1u64, 8, 64, 1024])), ops }
 }
 
+/// bulk calls whose batches hold different keys with one and the same 64-bit hash (no key twice in a batch)
+pub fn gen_collide_bulk(rng: &mut Rng, kt: Kt) -> Seq {
+    let groups = crate::decoder::colliding_keys(rng.below(1000), rng.range(2, 4) as usize, rng.range(2, 3) as usize, *rng.pick(&[0usize, 3]));
+    let pool: Vec<B> = groups.into_iter().flatten().map(B::Hex).collect();
+    let shuffled = |rng: &mut Rng, v: &Vec<B>| {
+        let mut w = v.clone();
+        for i in (1..w.len()).rev() {
+            let j = rng.below(i as u64 + 1) as usize;
+            w.swap(i, j);
+        }
+        w
+    };
+    let mut ops = Vec::new();
+    for round in 0..4u64 {
+        let ks = shuffled(rng, &pool);
+        let some: Vec<B> = ks.iter().filter(|_| rng.chance(3, 4)).cloned().collect();
+        ops.push(Op::BulkPut(some.iter().enumerate().map(|(j, k)| (k.clone(), B::Pat(10 + j, round * 50 + j as u64))).collect()));
+        ops.push(Op::BulkGet(shuffled(rng, &pool)));
+        ops.push(Op::Len);
+        let del: Vec<B> = shuffled(rng, &pool).into_iter().filter(|_| rng.chance(1, 2)).collect();
+        ops.push(Op::BulkDel(del));
+        ops.push(Op::BulkGet(shuffled(rng, &pool)));
+        ops.push(Op::Len);
+    }
+    Seq { kt, params: Params::buckets(*rng.pick(&[1u64, 8, 64])), ops }
+}
+
 pub fn gen_history(rng: &mut Rng, p: &Profile) -> Seq {
     let pool: Vec<B> = {
         let mut v: Vec<B> = Vec::new();
